@@ -23,8 +23,15 @@ Inconsistent(t, v) ==
 
 (* Input classes of the open findings (only the persistence of a deviation is required inside) *)
 GeneralLength(sz, n) == sz.c = "none" \/ sz.ub >= 65536 \/ (sz.ext /\ (n < sz.lb \/ n > sz.ub))
+\* the root items of an ENUMERATED are not declared in ascending order of their values
+UnsortedEnum(t) == t.k = "enum" /\ "nums" \in DOMAIN t /\ \E i, j \in 1..t.nroot : i < j /\ t.nums[i] > t.nums[j]
+\* the root alternatives of a CHOICE carry explicit tags that are not declared in canonical order
+UnsortedChoice(t) == t.k = "choice" /\ "atags" \in DOMAIN t /\ \E i, j \in 1..t.nroot : i < j /\ TagLess(t.atags[j], t.atags[i])
 DevOf(t, v) ==
-  IF "CountNotFragmented" \in Dev /\ (t.k = "seqof" \/ (t.k = "str" /\ t.cs # "utf8"))
+  IF "EnumIndexByDeclaration" \in Dev /\ UnsortedEnum(t) THEN "EnumIndexByDeclaration"
+  ELSE IF "ChoiceIndexByDeclaration" \in Dev /\ UnsortedChoice(t) THEN "ChoiceIndexByDeclaration"
+  ELSE IF "IntegerMaxAsBound" \in Dev /\ t.k = "int" /\ t.con.c = "semi" THEN "IntegerMaxAsBound"
+  ELSE IF "CountNotFragmented" \in Dev /\ (t.k = "seqof" \/ (t.k = "str" /\ t.cs # "utf8"))
      /\ Len(v) >= 16384 /\ GeneralLength(t.sz, Len(v))
   THEN "CountNotFragmented"
   ELSE IF "BitStringFragmentation" \in Dev /\ t.k = "bits" /\ Len(v) >= 16384 /\ GeneralLength(t.sz, Len(v))
@@ -34,7 +41,16 @@ DevOf(t, v) ==
 Case(i, v) ==
   LET t == Zoo[i]
       e == Enc(t, v)
-  IN [ti |-> i, v |-> v, ok |-> e.ok, bits |-> e.bits, incons |-> Inconsistent(t, v), dev |-> DevOf(t, v)]
+      \* Impl(Dev), exactly, where the deviation is deterministic: the enumeration index is the position in the declaration
+      \* (= the encoding of the same type without explicit values); everything else - round trip, refusals - must hold as usual
+      devbits == IF DevOf(t, v) = "EnumIndexByDeclaration" THEN Enc(TEnum(t.nroot, t.nadd, t.ext), v).bits
+                 ELSE IF DevOf(t, v) = "ChoiceIndexByDeclaration" THEN Enc(TChoice(t.alts, t.nroot, t.ext), v).bits
+                 \* MAX is carried as the number 2^63 - 1: a constrained whole number of 63 / 64 bits; (0..MAX) is carried as
+                 \* "no constraint": an unconstrained (two's complement) whole number
+                 ELSE IF DevOf(t, v) = "IntegerMaxAsBound" /\ v >= t.con.lb
+                 THEN (IF t.con.lb = 0 THEN UnconstrainedB(BOfInt(v)).bits ELSE ConstrainedB(BOfInt(t.con.lb), I64Max, BOfInt(v)).bits)
+                 ELSE <<>>
+  IN [ti |-> i, v |-> v, ok |-> e.ok, bits |-> e.bits, incons |-> Inconsistent(t, v), dev |-> DevOf(t, v), devbits |-> devbits]
 
 Init == st = "type" /\ c \in {[ti |-> i] : i \in 1..Len(Zoo)}
 Next ==
